@@ -223,6 +223,7 @@ class Check:
         self.mc_runs = []
         self.violations = {}     # key -> (what, replay object)
         self.known_hits = {}     # key -> what
+        self.conf = {}           # conformance mismatches (spec/code drift that is NOT a property clause)
         self.assumptions = []
         self.extra = {}
         self.rule = ""
@@ -285,6 +286,25 @@ class Check:
         if key not in self.violations:
             self.violations[key] = (what, replay)
 
+    def conformance(self, key, what, replay=None):
+        """the code took a step the design spec does not have, but no clause of the property failed:
+        reported in the evidence file, never a violation"""
+        self.conf.setdefault(str(key), what)
+
+    def verdicts(self, printed, describe):
+        """printed: values of PrintT(<<"VERDICT", tid, ..., bad>>); clause names starting with P_ are
+        clauses of the property statement, C_ are conformance clauses. describe(tid, clause, row) ->
+        (key, what, replay)"""
+        for row in printed:
+            tid, bad = row[1], row[-1]
+            for clause in bad:
+                name = clause if isinstance(clause, str) else clause[0]
+                key, what, replay = describe(tid, clause, row)
+                if name.startswith("P_"):
+                    self.violation(key, what, replay)
+                else:
+                    self.conformance(key, what)
+
     def case(self, key=None, sample=None, n=1):
         """count an execution of the implementation; key identifies a distinct non-trivial case"""
         self.evaluations += n
@@ -303,6 +323,7 @@ class Check:
             "rule": self.rule, "samples": self.samples[:6] or ["(none)"],
             "tlc_runs": self.mc_runs,
             "known_findings_seen": sorted(self.known_hits),
+            "conformance_mismatches": [{"key": k, "what": v} for k, v in sorted(self.conf.items())][:20],
         }
         cov.update(self.extra)
         ev = {"property_id": self.pid, "tier": self.tier, "seed": self.seed, "level": self.level,
